@@ -161,6 +161,9 @@ def remove_cand(
         if condense:
             clean_profile = clean_profile.condense_ballots()
 
+        # a ballot that loses every candidate is exhausted: an empty ballot of weight 0
+        if len(clean_profile.ballots) == 0:
+            return cast(COB, Ballot(weight=Fraction(0)))
         return cast(COB, clean_profile.ballots[0])
     else:
         clean_profile = None
